@@ -6,7 +6,9 @@ Import ListNotations.
 Local Open Scope string_scope.
 
 (* ------------------------------------------------------------------ generated data *)
-Record write := mk_write { w_class : string; w_field : string; w_sub : string; w_how : string }.
+(* w_obj  : the object the member is selected from: "this", "param:<name>", "var:<name>", "init-list" (aggregate initialiser), "expr"
+   w_guard: the conditions / loops the write is nested in inside its own function ("" = unconditional), printed by the translator *)
+Record write := mk_write { w_class : string; w_field : string; w_sub : string; w_how : string; w_obj : string; w_guard : string }.
 Record func_decl := mk_func { f_name : string; f_writes : list write; f_calls : list string }.
 Record class_decl := mk_class { c_name : string; c_bases : list string; c_fields : list string }.
 
@@ -14,7 +16,9 @@ Record class_decl := mk_class { c_name : string; c_bases : list string; c_fields
 Inductive follow := FollowAll | FollowOnly (l : list string) | FollowNone.
 Record root := mk_root { rt_fn : string; rt_follow : follow }.
 (* a route: the routines that run when the objects of [r_classes] are reset/re-initialised/recycled along one path *)
-Record route := mk_route { r_name : string; r_classes : list string; r_roots : list root }.
+(* r_objs  : names under which the routines of the route refer to THE object being reset (writes to other objects do not count)
+   r_guards: reviewed conditions under which a write still counts as always happening on this route *)
+Record route := mk_route { r_name : string; r_classes : list string; r_roots : list root; r_objs : list string; r_guards : list string }.
 
 Definition mem (s : string) (l : list string) : bool := existsb (String.eqb s) l.
 
@@ -64,17 +68,37 @@ Definition specials : list special :=
     mk_special "Section" "_name" [".str"] "arg:memset"
       "memset(section->_name.str, 0, sizeof(str)): str is the full-size view of the name union (fix of DESIGN 7.18)";
     mk_special "BaseCompiler" "_const_pools" ["[kLocal]"; "[kGlobal]"] "assign"
-      "both elements of the two-element array are assigned" ].
+      "both elements of the two-element array are assigned";
+    mk_special "BaseNode" "anon:_prev+_next+_links" ["._prev"; "._next"] "assign"
+      "the 16-byte link union {struct{_prev,_next}; _links[2]} is covered by its two pointers";
+    mk_special "BaseNode" "anon:_any+_align_data+_inst+_embed+_sentinel" ["._any._reserved_0"; "._any._reserved_1"] "assign"
+      "the 2-byte per-node-type union is covered by the two bytes of its AnyData view";
+    mk_special "BaseNode" "anon:_user_data_u64+_user_data_ptr" ["._user_data_u64"] "assign"
+      "the 8-byte user-data union is covered by its 64-bit view";
+    mk_special "CodeHolder::NamedLabelExtraData" "extra_data"
+      ["._section_id"; "._internal_label_type"; "._internal_label_flags"; "._internal_uint16_data"; "._parent_id"; "._name_size"] "assign"
+      "all six members of the embedded LabelEntry::ExtraData (header + parent id + name size) are assigned" ].
 
 Definition write_is (c f sub how : string) (w : write) : bool :=
   String.eqb (w_class w) c && String.eqb (w_field w) f && String.eqb (w_sub w) sub && String.eqb (w_how w) how.
 
-Definition covered_plain (ws : list write) (c f : string) : bool :=
-  existsb (fun w => String.eqb (w_class w) c && String.eqb (w_field w) f && String.eqb (w_sub w) "" && mem (w_how w) reset_hows) ws.
-Definition covered_special (ws : list write) (c f : string) : bool :=
+(* the write is applied to the object being reset, under a condition that is accepted for the route *)
+Definition applies (r : route) (w : write) : bool :=
+  mem (w_obj w) (r_objs r) && (String.eqb (w_guard w) "" || mem (w_guard w) (r_guards r)).
+(* ... or applied to it in BOTH branches of one condition (two writes with guards g and !g) *)
+Definition applies_both (r : route) (ws : list write) (sel : write -> bool) : bool :=
+  existsb (fun w1 => sel w1 && mem (w_obj w1) (r_objs r) &&
+     existsb (fun w2 => sel w2 && mem (w_obj w2) (r_objs r) && String.eqb (w_guard w2) ("!" ++ w_guard w1)) ws) ws.
+
+Definition plain_sel (c f : string) (w : write) : bool :=
+  String.eqb (w_class w) c && String.eqb (w_field w) f && String.eqb (w_sub w) "" && mem (w_how w) reset_hows.
+
+Definition covered_plain (r : route) (ws : list write) (c f : string) : bool :=
+  existsb (fun w => plain_sel c f w && applies r w) ws || applies_both r ws (plain_sel c f).
+Definition covered_special (r : route) (ws : list write) (c f : string) : bool :=
   existsb (fun s => String.eqb (sp_class s) c && String.eqb (sp_field s) f &&
-                    forallb (fun sub => existsb (write_is c f sub (sp_how s)) ws) (sp_subs s)) specials.
-Definition covered (ws : list write) (c f : string) : bool := covered_plain ws c f || covered_special ws c f.
+                    forallb (fun sub => existsb (fun w => write_is c f sub (sp_how s) w && applies r w) ws) (sp_subs s)) specials.
+Definition covered (r : route) (ws : list write) (c f : string) : bool := covered_plain r ws c f || covered_special r ws c f.
 
 (* ------------------------------------------------------------------ routes *)
 Definition emitters : list (string * list string) :=
@@ -87,35 +111,62 @@ Definition emitters : list (string * list string) :=
 
 Definition section_classes := ["Section"; "SectionOrLabelEntryExtraHeader"].
 
+(* object names *)
+Definition self_objs := ["this"; "param:self"].
+(* reviewed guards (the reason is given where the guard is used) *)
+Definition g_loop_emitters := "while emitter".            (* CodeHolder_detach_emitters: body runs for every attached emitter; its last
+                                                             iteration stores the null successor into _attached_first *)
+Definition g_own_logger := "!has_own_logger()".           (* the emitter's OWN logger is user configuration (kOwnLogger) and persists *)
+Definition g_own_handler := "!has_own_error_handler()".   (* same for the own error handler *)
+Definition g_hard := "(reset_policy == kHard)".
+(* hard reset, blocks were allocated, no static block: the first block becomes the shared zero block. In the other two cases the
+   first block already is the zero block (nothing allocated) or is the user's static block: it stays by design *)
+Definition g_hard_dynamic := "(reset_policy == kHard) && !(first == &_arena_zero_block) && !has_static_block()".
+Definition g_label_ok := "!__builtin_expect(!!(err != kOk),0)".                  (* new_label_id: the entry is only created when reserving succeeded *)
+Definition g_anonymous := "(name_size == 0)".                                    (* new_named_label_id: the anonymous-label early exit *)
+
+(* constructor routes of the Builder/Compiler nodes: placement-new into never-zeroed builder arena memory *)
+Definition node_classes : list string :=
+  [ "BaseNode"; "InstNode"; "SectionNode"; "LabelNode"; "AlignNode"; "EmbedDataNode"; "EmbedLabelNode"; "EmbedLabelDeltaNode";
+    "ConstPoolNode"; "JumpNode"; "FuncNode"; "InvokeNode" ].
+Definition ctor_of (c : string) : string := c ++ "::" ++ c.
+
 Definition routes : list route :=
-  [ mk_route "holder.reset" ["CodeHolder"] [mk_root "CodeHolder::reset" FollowAll];
-    mk_route "holder.reinit" ["CodeHolder"] [mk_root "CodeHolder::reinit" FollowAll];
-    mk_route "holder.text_section" section_classes [mk_root "CodeHolder_add_text_section" FollowAll];
-    mk_route "holder.new_section" section_classes [mk_root "CodeHolder::new_section" FollowAll];
-    mk_route "arena.reset" ["Arena"] [mk_root "Arena::reset" FollowAll];
+  [ mk_route "holder.reset" ["CodeHolder"] [mk_root "CodeHolder::reset" FollowAll] self_objs [g_loop_emitters];
+    mk_route "holder.reinit" ["CodeHolder"] [mk_root "CodeHolder::reinit" FollowAll] self_objs [];
+    mk_route "holder.text_section" section_classes [mk_root "CodeHolder_add_text_section" FollowAll] ["param:section"; "this"] [];
+    mk_route "holder.new_section" section_classes [mk_root "CodeHolder::new_section" FollowAll] ["var:section"; "param:section"; "this"] [];
+    mk_route "arena.reset_hard" ["Arena"] [mk_root "Arena::reset" FollowAll] ["this"; "param:arena"] [g_hard; g_hard_dynamic];
+    mk_route "arena.reset_soft" ["Arena"] [mk_root "Arena::reset" FollowAll] ["this"; "param:arena"] [];
     (* objects created in (possibly recycled, never zeroed) arena memory: every member must be initialised at creation *)
-    mk_route "holder.new_reloc" ["RelocEntry"] [mk_root "CodeHolder::new_reloc_entry" FollowNone];
-    mk_route "holder.new_fixup" ["Fixup"] [mk_root "CodeHolder::new_fixup" FollowNone];
-    mk_route "holder.new_address" ["AddressTableEntry"] [mk_root "AddressTableEntry::AddressTableEntry" FollowNone] ]
+    mk_route "holder.new_reloc" ["RelocEntry"] [mk_root "CodeHolder::new_reloc_entry" FollowNone] ["var:re"] [];
+    mk_route "holder.new_fixup" ["Fixup"] [mk_root "CodeHolder::new_fixup" FollowNone] ["var:link"] [];
+    mk_route "holder.new_address" ["AddressTableEntry"] [mk_root "AddressTableEntry::AddressTableEntry" FollowNone] ["this"] [];
+    mk_route "holder.new_label" ["LabelEntry"] [mk_root "CodeHolder::new_label_id" FollowNone] ["init-list"] [g_label_ok];
+    mk_route "holder.new_named_label" ["LabelEntry"; "CodeHolder::NamedLabelExtraData"] [mk_root "CodeHolder::new_named_label_id" FollowNone]
+             ["init-list"; "var:named_node"] [] ]
+  ++ map (fun c => mk_route ("node/" ++ c) [c] [mk_root (ctor_of c) FollowNone] ["this"] []) node_classes
   ++ map (fun e => mk_route ("detach/" ++ fst e) (snd e)
-                     [mk_root (fst e ++ "::on_detach") FollowAll; mk_root "CodeHolder::detach" FollowNone]) emitters
+                     [mk_root (fst e ++ "::on_detach") FollowAll; mk_root "CodeHolder::detach" FollowNone]
+                     ["this"; "param:self"; "param:emitter"] [g_own_logger; g_own_handler]) emitters
   ++ map (fun e => mk_route ("detach_all/" ++ fst e) (snd e)
-                     [mk_root (fst e ++ "::on_detach") FollowAll; mk_root "CodeHolder_detach_emitters" FollowNone]) emitters
+                     [mk_root (fst e ++ "::on_detach") FollowAll; mk_root "CodeHolder_detach_emitters" FollowNone]
+                     ["this"; "param:self"; "var:emitter"] [g_own_logger; g_own_handler; g_loop_emitters]) emitters
   ++ map (fun e => mk_route ("reinit/" ++ fst e) (snd e)
                      [mk_root (match fst e with
                                | "x86::Assembler" | "a64::Assembler" => "BaseAssembler"
                                | "x86::Builder" | "a64::Builder" => "BaseBuilder"
-                               | s => s end ++ "::on_reinit") FollowAll]) emitters
+                               | s => s end ++ "::on_reinit") FollowAll] self_objs []) emitters
   ++ [ mk_route "ra.function/x86" ["BaseRAPass"; "x86::X86RAPass"]
          [ mk_root "BaseRAPass::run_on_function"
              (FollowOnly ["RAPass_prepare_for_function"; "RAPass_reset_virt_reg_data"; "RAPass_cleanup_after_function"]);
            mk_root "BaseRAPass::run" (FollowOnly ["RAPass_prepare_logging"; "RAPass_cleanup_logging"]);
-           mk_root "x86::X86RAPass::on_init" FollowNone ];
+           mk_root "x86::X86RAPass::on_init" FollowNone ] ["this"; "param:self"; "param:pass"] [];
        mk_route "ra.function/a64" ["BaseRAPass"; "a64::ARMRAPass"]
          [ mk_root "BaseRAPass::run_on_function"
              (FollowOnly ["RAPass_prepare_for_function"; "RAPass_reset_virt_reg_data"; "RAPass_cleanup_after_function"]);
            mk_root "BaseRAPass::run" (FollowOnly ["RAPass_prepare_logging"; "RAPass_cleanup_logging"]);
-           mk_root "a64::ARMRAPass::on_init" FollowNone ] ].
+           mk_root "a64::ARMRAPass::on_init" FollowNone ] ["this"; "param:self"; "param:pass"] [] ].
 
 (* calls that glue the roots of a route together (virtual dispatch is not resolved by the translator): they must exist *)
 Definition must_call : list (string * string) :=
@@ -158,9 +209,14 @@ Definition persistent : list persist :=
     mk_persist "holder.text_section" "Section" "_buffer"
       "buffer of the embedded .text section is a retained resource: _size is zeroed by CodeHolder_reset_containers, data/capacity only describe owned memory";
     (* Arena *)
-    mk_persist "arena.reset" "Arena" "_min_block_size_shift" cfg_why;
-    mk_persist "arena.reset" "Arena" "_max_block_size_shift" cfg_why;
-    mk_persist "arena.reset" "Arena" "_has_static_block" cfg_why;
+    mk_persist "arena.reset_hard" "Arena" "_min_block_size_shift" cfg_why;
+    mk_persist "arena.reset_hard" "Arena" "_max_block_size_shift" cfg_why;
+    mk_persist "arena.reset_hard" "Arena" "_has_static_block" cfg_why;
+    mk_persist "arena.reset_soft" "Arena" "_min_block_size_shift" cfg_why;
+    mk_persist "arena.reset_soft" "Arena" "_max_block_size_shift" cfg_why;
+    mk_persist "arena.reset_soft" "Arena" "_has_static_block" cfg_why;
+    mk_persist "arena.reset_soft" "Arena" "_first_block" "soft reset keeps the chain of managed blocks for reuse (retained resource; allocation restarts in the first block)";
+    mk_persist "arena.reset_soft" "Arena" "_current_block_size_shift" "soft reset keeps the grown block size (retained resource sizing, unobservable)";
     (* emitters, detach *)
     mk_persist "detach" "BaseEmitter" "_emitter_type" cfg_why;
     mk_persist "detach" "BaseEmitter" "_validation_flags" cfg_why;
@@ -214,7 +270,7 @@ Definition class_exists (cs : list class_decl) (c : string) : bool := existsb (f
 Definition func_exists (fs : list func_decl) (n : string) : bool := existsb (fun f => String.eqb (f_name f) n) fs.
 
 Definition field_ok (fs : list func_decl) (r : route) (ws : list write) (c f : string) : bool :=
-  covered ws c f || is_persistent r c f.
+  covered r ws c f || is_persistent r c f.
 
 Definition check_route (cs : list class_decl) (fs : list func_decl) (r : route) : bool :=
   let ws := route_writes fs r in
